@@ -462,19 +462,19 @@ int
 esl_mixdchlet_Read(ESL_FILEPARSER *efp,  ESL_MIXDCHLET **ret_dchl)
 {
   ESL_MIXDCHLET *dchl = NULL;
-  int   Q,K;			/* number of components, alphabet size */
+  long  Q,K;			/* number of components, alphabet size */
   char *tok;			/* ptr to a whitespace-delim, noncomment token */
   int   toklen;			/* length of a parsed token */
   int   k,a;			/* index over components, symbols */
   int   status;		
 
   if ((status = esl_fileparser_GetToken(efp, &tok, &toklen)) != eslOK) goto ERROR;
-  K = atoi(tok);
-  if (K < 1) ESL_XFAIL(eslEFORMAT, efp->errbuf, "Bad vector size %s", tok);
+  K = strtol(tok, NULL, 10);
+  if (K < 1 || K > eslMIXDCHLET_MAXK) ESL_XFAIL(eslEFORMAT, efp->errbuf, "Bad vector size %s", tok);
   
   if ((status = esl_fileparser_GetToken(efp, &tok, &toklen)) != eslOK) goto ERROR;
-  Q = atoi(tok);
-  if (Q < 1) ESL_XFAIL(eslEFORMAT, efp->errbuf, "Bad mixture number %s", tok); 
+  Q = strtol(tok, NULL, 10);
+  if (Q < 1 || Q > eslMIXDCHLET_MAXQ) ESL_XFAIL(eslEFORMAT, efp->errbuf, "Bad mixture number %s", tok); 
 
   if ((dchl = esl_mixdchlet_Create(Q, K)) == NULL) goto ERROR;
  
